@@ -26,6 +26,17 @@ def allcloseSpec (dimA dimD dimT : Dim) (sa sd st : K) (rtol atolVal : K)
     (pairs : List (K × K)) : Prop :=
   dimA = dimD ∧ dimT = dimD ∧ ∀ p ∈ pairs, closeSI rtol (atolVal * st) (p.1 * sa) (p.2 * sd)
 
+/-- the absolute SI magnitude a reading `x` denotes in a unit with SI scale `scale` whose zero lies
+    at the reading `offset` of the SI zero (temperature scales: 0 K is −273.15 °C and −459.67 °F, so
+    32 °F ↦ (32 + 459.67)·5/9 K = 273.15 K); for every other unit `offset = 0` and this is
+    `x * scale`.  Written from the definition of the scales, not from any conversion routine. -/
+def absSI (scale offset x : K) : K := (x - offset) * scale
+
+/-- two absolute magnitudes agree within an absolute tolerance (all three in SI): `|a − d| ≤ atolSI`.
+    This is `closeSI` with `rtol = 0` — the only tolerance comparison that does not depend on where a
+    scale puts its zero -/
+def closeAbs (atolSI a d : K) : Prop := absK (a - d) ≤ atolSI
+
 /-- the unit `(dimension, scale)` an `atol` is to be read in: "If units are attached, they must
     be consistent with the units of actual and desired. If no units are attached, assumes the
     same units as desired." -/
